@@ -14,7 +14,7 @@ const hMaxSlots = 12
 
 type hPW struct {
 	x     *hW
-	slot  [hMaxH]int    // finalizer slot of the referent stored in entity i's P component (-1 none)
+	slot  [hMaxH]int    // finalizer slot of the referent stored in entity i's P / S component (-1 none)
 	val   [hMaxH]int64  // value stored in the referent
 	nslot int
 }
@@ -25,7 +25,7 @@ func (g *hPW) newRef(name string) (*int64, int, int64) {
 	v := int64(vU64(name))
 	*p = v
 	s := g.nslot
-	vAssume(s < hMaxSlots)
+	vBound(s < hMaxSlots, "referents<=12")
 	g.nslot++
 	vTrack(p, s)
 	return p, s, v
@@ -50,9 +50,29 @@ func (g *hPW) create(set uint8, withTarget bool, t Entity) int {
 	return i
 }
 
+// createS: an entity carrying a string component whose bytes are a tracked heap object.
+func (g *hPW) createS(set uint8) int {
+	x := g.x
+	s := g.nslot
+	vBound(s < hMaxSlots, "referents<=12")
+	g.nslot++
+	str := vHeapString(s)
+	var vals hVals
+	comps := x.comps(set&^(1<<uS), &vals)
+	comps = append(comps, Component{ID: x.id[uS], Comp: &hS{S: str}})
+	e := x.w.NewEntityWith(comps...)
+	i := x.mCreated(e, set|1<<uS, Entity{})
+	x.s[i] = str
+	g.slot[i], g.val[i] = s, 0
+	return i
+}
+
 func (g *hPW) checkRefs() {
 	x := g.x
 	for i := 0; i < x.n; i++ {
+		if x.alive[i] && x.set[i]&(1<<uS) != 0 {
+			vAssert((*hS)(x.w.Get(x.h[i], x.id[uS])).S == x.s[i], "a string component keeps the string last written to it")
+		}
 		if x.alive[i] && x.set[i]&(1<<uP) != 0 && x.p[i] != nil {
 			hp := (*hP)(x.w.Get(x.h[i], x.id[uP]))
 			vAssert(hp.P == x.p[i], "a pointer-carrying component keeps the pointer last written to it")
@@ -68,14 +88,20 @@ func (g *hPW) step(op int) {
 	P := uint8(1 << uP)
 	switch op {
 	case 0: // more entities in the same table: growth
-		g.create([3]uint8{0, 1 << uA, 1<<uA | 1<<uB}[vChoice("set", 3)], false, Entity{})
+		if vChoice("kind", 2) == 0 {
+			g.create([3]uint8{0, 1 << uA, 1<<uA | 1<<uB}[vChoice("set", 3)], false, Entity{})
+		} else {
+			g.createS([2]uint8{0, 1 << uA}[vChoice("set", 2)])
+		}
 	case 1: // write through the Get pointer
 		i := g.pickP("ent")
+		vAssume(x.set[i]&P != 0)
 		p, s, v := g.newRef("ref")
 		(*hP)(x.w.Get(x.h[i], x.id[uP])).P = p
 		x.p[i], g.slot[i], g.val[i] = p, s, v
 	case 2: // World.Set
 		i := g.pickP("ent")
+		vAssume(x.set[i]&P != 0)
 		p, s, v := g.newRef("ref")
 		x.w.Set(x.h[i], x.id[uP], &hP{P: p})
 		x.p[i], g.slot[i], g.val[i] = p, s, v
@@ -96,12 +122,12 @@ func (g *hPW) step(op int) {
 		}
 	case 5: // remove the component: the storage must let go of the referent
 		i := g.pickP("ent")
-		x.opExchange(i, 0, P, 2)
-		x.p[i], g.slot[i] = nil, -1
+		x.opExchange(i, 0, x.set[i]&(P|1<<uS), 2)
+		x.p[i], x.s[i], g.slot[i] = nil, "", -1
 	case 6: // remove an entity (swap-remove moves another row into its place)
 		i := x.pickAliveIdx("ent")
 		x.opRemoveEntity(i)
-		x.p[i], g.slot[i] = nil, -1
+		x.p[i], x.s[i], g.slot[i] = nil, "", -1
 	case 7: // batch move of every entity carrying P
 		m := All(x.id[uP])
 		k := [2]int{uC, uZ}[vChoice("comp", 2)]
@@ -135,14 +161,14 @@ func (g *hPW) step(op int) {
 	case 9: // Reset: everything must be released
 		x.opReset()
 		for j := 0; j < hMaxH; j++ {
-			x.p[j], g.slot[j] = nil, -1
+			x.p[j], x.s[j], g.slot[j] = nil, "", -1
 		}
 	case 10: // batch removal of every entity carrying P and A
 		b := x.mkFilter(fA, Entity{})
 		x.opRemoveEntities(b.f, fA, Entity{})
 		for j := 0; j < x.n; j++ {
 			if !x.alive[j] {
-				x.p[j], g.slot[j] = nil, -1
+				x.p[j], x.s[j], g.slot[j] = nil, "", -1
 			}
 		}
 	case 11: // child with pointer component for a parent, then the parent dies
@@ -155,7 +181,7 @@ func (g *hPW) pickP(name string) int {
 	var idx [hMaxH]int
 	n := 0
 	for j := 0; j < x.n; j++ {
-		if x.alive[j] && x.set[j]&(1<<uP) != 0 {
+		if x.alive[j] && x.set[j]&(1<<uP|1<<uS) != 0 {
 			idx[n] = j
 			n++
 		}
@@ -171,6 +197,8 @@ func hRunPointers(g *hPW) {
 	g.create(0, false, Entity{})
 	g.create(1<<uA, false, Entity{})
 	g.create(1<<uA|1<<uR1, true, x.h[0])
+	g.createS(0)
+	g.createS(1 << uA)
 	steps := 2 + vTier()
 	for s := 0; s < steps; s++ {
 		g.step(vChoice("op", hNPtrOps))
@@ -183,7 +211,7 @@ func hRunPointers(g *hPW) {
 func HC14_Pointers() {
 	vGCCheck()
 	prof, capInc, relInc := hConfig2()
-	g := &hPW{x: hNew(prof, 7, capInc, relInc)}
+	g := &hPW{x: hNew(prof, 8, capInc, relInc)}
 	for j := 0; j < hMaxH; j++ {
 		g.slot[j] = -1
 	}
@@ -198,7 +226,7 @@ func HC14_Pointers() {
 			if x.alive[i] && g.slot[i] >= 0 {
 				live[g.slot[i]] = true
 			}
-			x.p[i] = nil
+			x.p[i], x.s[i] = nil, ""
 		}
 		for s := 0; s < g.nslot; s++ {
 			c := vCollected(s)
@@ -220,5 +248,15 @@ func (g *hPW) checkRefsValuesOnly() {
 			hp := (*hP)(x.w.Get(x.h[i], x.id[uP]))
 			vAssert(hp.P != nil && *hp.P == g.val[i], "what a live component references is intact after garbage collection")
 		}
+		if x.alive[i] && x.set[i]&(1<<uS) != 0 && g.slot[i] >= 0 {
+			vAssert((*hS)(x.w.Get(x.h[i], x.id[uS])).S == vHeapStringText(g.slot[i]), "a string held by a live component is intact after garbage collection")
+		}
 	}
+}
+
+func vHeapStringText(slot int) string {
+	if slot < 10 {
+		return "heap-string-" + string(rune('0'+slot))
+	}
+	return "heap-string-" + string(rune('0'+slot/10)) + string(rune('0'+slot%10))
 }
